@@ -198,6 +198,22 @@ theorem ioOrientation_mulCols (cols : List Col) (t : List (Nat × Bool)) :
     obtain ⟨c, p, keep⟩ := q
     cases keep <;> rfl
 
+/-- **C20 / C02: the permutation returned by the reordering tells where every source axis went:**
+    output axis `t[i].1` carries the affine column of input axis `i` (negated when flipped), so
+    `permutation[2]` is the axis along which the source slices are stacked and `permutation[0/1]`
+    keep pointing along the source row / column directions -/
+theorem mulCols_axis (t : List (Nat × Bool)) (ht : t ∈ allT) (c0 c1 c2 : Col) (i : Nat) (hi : i < 3) :
+    (mulCols [c0, c1, c2] t)[(t.getD i (0, true)).1]? =
+      ([c0, c1, c2][i]?).map fun c => { c with pos := if (t.getD i (0, true)).2 then c.pos else !c.pos } := by
+  simp only [allT, allPerm, allFlips, List.flatMap_cons, List.flatMap_nil, List.map_cons,
+    List.map_nil, List.zip_cons_cons, List.zip_nil_right, List.append_nil, List.cons_append,
+    List.nil_append, List.mem_cons, List.mem_nil_iff, or_false] at ht
+  have hi' : i = 0 ∨ i = 1 ∨ i = 2 := by omega
+  rcases ht with h | h | h | h | h | h | h | h | h | h | h | h | h | h | h | h | h | h | h | h | h |
+    h | h | h | h | h | h | h | h | h | h | h | h | h | h | h | h | h | h | h | h | h | h | h | h |
+    h | h | h <;> subst h <;> rcases hi' with rfl | rfl | rfl <;>
+  simp [mulCols, List.range, List.range.loop]
+
 /-- **C17, decision logic:** a valid code, an array of ≥ 3 dimensions, a 4×4 axis-aligned affine ⇒
     `reorder_voxels` succeeds, and the closest anatomical directions of the output axes spell the
     requested code -/
